@@ -282,6 +282,9 @@ def check_tables(F, dec, D1):
                     arg = fE.operand(t.args[0])
                     if isinstance(arg, tuple) and arg[0] == 'place' and len(arg) == 2 and arg[1] in bind:
                         arg = bind[arg[1]]
+                    elif bind and isinstance(arg, tuple):
+                        import linform
+                        arg = linform.subst(arg, bind)        # `base_type_info | (tyle as u32)` with both parameters bound at the call site
                     v = fold(arg)
                     if v is not None and ty == 'u32':
                         type_infos.append(v)
@@ -301,7 +304,36 @@ def check_tables(F, dec, D1):
                         if nm:
                             hbind[nm] = fE.operand(a)
                     D1.fn(hb.path)
+                    before = len(type_infos)
+                    vb_before = list(value_bytes)
                     scan(hb, hE, hbind, 1)
+                    if len(type_infos) == before:
+                        # `fn push_fixed<const N: usize>(&mut self, type_info: u32, bytes: [u8; N])`: the type word depends on the const
+                        # parameter; interpret the helper with N bound to the length of the array handed in at this call site
+                        import cinterp
+                        lens = [int(mm.group(1)) for a in t.args for mm in [re.match(r'^\[u8; (\d+)\]$', a.ty or '')] if mm]
+                        cps = set()
+                        import json as _json
+                        for mm in re.finditer(r'"k": "const", "t": "usize", "s": "([A-Z][A-Z0-9_]*)"\}', _json.dumps([x.term.d for x in hb.blocks] + [s_.d for x in hb.blocks for s_ in x.stmts])):
+                            cps.add(mm.group(1))
+                        if len(lens) == 1 and len(cps) == 1:
+                            seen_words = []
+
+                            def hook(path, args, term, seen_words=seen_words):
+                                if re.search(r'<impl u32>::to_ne_bytes$', path) and args and isinstance(args[0], int):
+                                    seen_words.append(args[0])
+                                return NotImplemented
+                            I = cinterp.Interp(F, hooks=hook)
+                            I.const_params = {list(cps)[0]: lens[0]}
+                            try:
+                                I.run(hb, [None] + [fold(fE.operand(a)) for a in t.args[1:]])
+                                type_infos.extend(seen_words)
+                                if seen_words:
+                                    # the value written is the array handed in: N bytes (the helper's own u32 to_ne_bytes was the type word)
+                                    del value_bytes[:]
+                                    value_bytes.append(lens[0])
+                            except cinterp.Unknown:
+                                pass
         scan(b, E, {}, 0)
         D1.sites += 1
         if len(type_infos) != 1:
